@@ -1723,6 +1723,13 @@ func lemmaSliceConcat(seq Sequence, c int) Sequence {
 //@   loop 1: invariant fresh(rr) && len(rr) == len(joined)
 //@   loop 1: decreases len(joined) - i
 
+//@ func (ordered Ordered) Region() (out Region)
+//@   prop C08 C15
+//@   requires forall k in 0..len(ordered): !isnil(ordered[k])
+//@   ensures is(out, Regions) && len(out.(Regions)) == len(ordered) && fresh(out.(Regions))
+//@   assigns nothing
+//@   loop 1: invariant fresh(rr) && len(rr) == len(ordered)
+//@   loop 1: decreases len(ordered) - i
 //@ func (between Between) Len() (n int)
 //@   prop C08
 //@   ensures n == 0
